@@ -238,6 +238,28 @@ def expandNest : List (LoopSpec × Option TileSpec) → List Node → List Node
     | b :: tl => expandNest r (floatUp acc b ++ tl)
     | [] => expandNest r acc
 
+/-! ### the compile-time range check of the oklForStatement constructor -/
+
+/-- `exprNode::canEvaluate` on the operand language: no variables -/
+def isConst : Expr → Bool
+  | .var _ => false
+  | .lit _ => true
+  | .paren e => isConst e
+  | .cast e => isConst e
+  | .un _ e => isConst e
+  | .bin _ l r => isConst l && isConst r
+  | .tern c t f => isConst c && isConst t && isConst f
+  | .sub a i => isConst a && isConst i
+
+/-- "OKL for loop range is empty or infinite!": when the iteration count can be evaluated at compile time and
+    is not positive, the loop is rejected (and with it the kernel, by every backend) -/
+def constRejected (l : LoopSpec) : Bool :=
+  isConst (countExpr l) && decide (eval (fun _ => 0) (countExpr l) ≤ 0)
+
+/-- a nest is rejected if an OKL loop or a `@tile` loop (tile.cpp validates with oklForStatement too) is -/
+def nestRejected (specs : List (LoopSpec × Option TileSpec)) : Bool :=
+  specs.any fun (l, t) => (l.attr != .none || t.isSome) && constRejected l
+
 /-! ### OKL loop indices and the lines of each translation -/
 
 /-- `oklForStatement::getOklLoopIndex`: the explicit attribute argument, else the number of loops with
@@ -313,6 +335,9 @@ def launcherLines (ns : List Node) : List String :=
   ["outer.dims = " ++ toString nOuter ++ ";", "inner.dims = " ++ toString nInner ++ ";"] ++ go ns
 
 def launchModes : List String := ["cuda", "hip", "opencl", "metal", "dpcpp"]
+
+def rejectedLine : String :=
+  "ok" ++ String.join (["serial", "openmp", "cuda", "hip", "opencl", "metal", "dpcpp"].map fun m => " @@ " ++ m ++ " ERR")
 
 /-- the observation line of harness/h_loops.cpp for a kernel whose nest is `ns` -/
 def kernelLine (ns : List Node) : String :=
